@@ -235,6 +235,120 @@ func c05(c *Ctx) {
 			}
 			return false, false
 		}
+		// a datagram that ends in a newline has no further line: where the rest of the message is taken as the
+		// last line (no newline left), it is known to be non-empty - an empty remainder parsed as a line is a
+		// phantom bad line
+		{
+			isZero := func(v ssa.Value) bool { k, ok := constInt(v); return ok && k == 0 }
+			nonEmpty := func(facts []canonCond, v ssa.Value) bool {
+				isLen := func(x ssa.Value) bool {
+					cl, ok := x.(*ssa.Call)
+					return ok && isCall(cl, "builtin len") && (cl.Call.Args[0] == v || pathOf(cl.Call.Args[0]) == pathOf(v))
+				}
+				return cmpHolds(facts, isLen, isZero, token.NEQ) || cmpHolds(facts, isLen, isZero, token.GTR)
+			}
+			// the fact sets under which a block is entered: its dominating facts, refined per incoming edge
+			edgeFacts := func(b *ssa.BasicBlock) [][]canonCond {
+				if len(b.Preds) < 2 {
+					return [][]canonCond{factsAt(b)}
+				}
+				var out [][]canonCond
+				for _, pred := range b.Preds {
+					fs := factsAt(pred)
+					if ifi, ok := pred.Instrs[len(pred.Instrs)-1].(*ssa.If); ok && pred.Succs[0] != pred.Succs[1] {
+						fs = append(fs, canonOf(Cond{ifi.Cond, pred.Succs[0] == b, ifi}))
+					}
+					out = append(out, fs)
+				}
+				return out
+			}
+			okLine := func(v ssa.Value, facts []canonCond) bool {
+				if sl, isSl := v.(*ssa.Slice); isSl && sl.High != nil {
+					return true // msg[:idx]: a line in front of a newline
+				}
+				if ex, isEx := v.(*ssa.Extract); isEx && ex.Index == 0 {
+					if cc, isC := ex.Tuple.(*ssa.Call); isC && strings.HasPrefix(calleeName(cc), "bytes.Cut") {
+						// before, _, found := bytes.Cut(msg, sep): a line in front of a newline when found, else the whole rest
+						found := func(x ssa.Value) bool {
+							e2, ok := x.(*ssa.Extract)
+							return ok && e2.Tuple == ex.Tuple && e2.Index == 2
+						}
+						return boolKnown(facts, found, true) || nonEmpty(facts, v) || nonEmpty(facts, cc.Call.Args[0])
+					}
+				}
+				return nonEmpty(facts, v)
+			}
+			arg := pc.Call.Args[lineArg]
+			// the line and - where the splitting was written as a helper returning (line, rest, ok) - the flag
+			// under which the call is reached are followed in lockstep through the joins: a leaf is fine if it is
+			// a line in front of a newline, a remainder known to be non-empty (possibly because the flag IS that
+			// test), or comes with the flag false (that way does not lead to the call)
+			var walk func(L, F ssa.Value, facts []canonCond, d int) bool
+			walk = func(L, F ssa.Value, facts []canonCond, d int) bool {
+				if F != nil {
+					_, isK := F.(*ssa.Const)
+					_, isP := F.(*ssa.Phi)
+					if !isK && !isP {
+						// the flag is a computed test on this way (ok = len(msg) != 0): it holds at the call
+						facts = append(append([]canonCond{}, facts...), canonOf(Cond{V: F, Sense: true}))
+					}
+				}
+				if d > 0 && okLine(L, facts) {
+					return true // e.g. the remainder variable itself (a loop phi), known to be non-empty here
+				}
+				if ph, isPhi := L.(*ssa.Phi); isPhi && d < 5 {
+					fph, _ := F.(*ssa.Phi)
+					for i, e := range ph.Edges {
+						pred := ph.Block().Preds[i]
+						fs := factsAt(pred)
+						if ifi, ok := pred.Instrs[len(pred.Instrs)-1].(*ssa.If); ok && pred.Succs[0] != pred.Succs[1] {
+							fs = append(fs, canonOf(Cond{ifi.Cond, pred.Succs[0] == ph.Block(), ifi}))
+						}
+						f2 := F
+						if fph != nil && fph.Block() == ph.Block() && i < len(fph.Edges) {
+							f2 = fph.Edges[i]
+						}
+						if !walk(e, f2, fs, d+1) {
+							return false
+						}
+					}
+					return true
+				}
+				if F != nil {
+					if k, isK := F.(*ssa.Const); isK && k.Value != nil && k.Value.ExactString() == "false" {
+						return true
+					}
+					if _, isK := F.(*ssa.Const); !isK {
+						if _, isPhi := F.(*ssa.Phi); !isPhi {
+							facts = append(append([]canonCond{}, facts...), canonOf(Cond{V: F, Sense: true}))
+						}
+					}
+				}
+				return okLine(L, facts)
+			}
+			okTail := false
+			if _, isPhi := arg.(*ssa.Phi); isPhi {
+				cands := []ssa.Value{nil}
+				for _, f := range factsAt(pc.Block()) {
+					if f.Op == token.ILLEGAL && f.True && f.V != nil && isBoolType(f.V.Type()) {
+						cands = append(cands, f.V)
+					}
+				}
+				for _, F := range cands {
+					if walk(arg, F, nil, 0) {
+						okTail = true
+					}
+				}
+			} else {
+				okTail = true
+				for _, fs := range edgeFacts(pc.Block()) {
+					if !okLine(arg, fs) {
+						okTail = false
+					}
+				}
+			}
+			r.Check("split:no-line-after-the-last-newline", okTail, pc.Pos(), "the remainder of the datagram is parsed as a line only where it is known to be non-empty")
+		}
 		// increments of the named counters
 		// the counters are identified by the result they are returned as (events: #1, bad lines: #2)
 		incs := map[string][]*ssa.BinOp{}
